@@ -34,7 +34,7 @@ from core import Eval
 
 PROPERTY = "C05"
 DRIVER = "drv_c05"
-PROPS = ["PartituraModel.Props.C05"]
+PROPS = ["PartituraModel.Props.C05", "PartituraModel.Props.C05Compose", "PartituraModel.Props.C05Collapse"]
 TRUSTED = [
     "the part's maps (beat_map, quarter_map, key/time signature maps, metrical_position_map) are inputs of the model: "
     "their values at the onsets/offsets are read from the real part and handed to the model (C02/C10 verify the maps)",
@@ -232,9 +232,9 @@ def gen_inv(rng, malformed=False):
     if cols in ("beat", "both") and rng.random() < 0.25:
         d["neg"] = rng.randint(1, 2 * divs0)  # beats are shifted down by neg divisions (pickup)
     r = rng.random()
-    if r < 0.25:
+    if r < 0.45:
         d["kw"]["estimate_time"] = True
-    if r < 0.1:
+    if r < 0.08:
         d["kw"]["sanitize"] = False
     if rng.random() < 0.1:
         d["kw"]["estimate_key"] = True
@@ -251,6 +251,7 @@ def gen_inv(rng, malformed=False):
 
 def cases(rng, tier):
     n = {"quick": 80, "thorough": 4000, "search": 6000}.get(tier, 80)
+    yield {"k": "kinds"}
     # a few parts with every one of the 2^7 option combinations
     for i in range(2 if tier == "quick" else 12):
         pd = gen_part(rng, "a", **part_kw(rng))
@@ -261,6 +262,7 @@ def cases(rng, tier):
         if r < 0.3:
             kw = part_kw(rng)
             pd = gen_part(rng, "a", qd_change=rng.random() < 0.2, empty=rng.random() < 0.04, **kw)
+            pd["musical"] = rng.random() < 0.15
             yield {"k": "part", "part": pd, "combos": [rand_opts(rng) for _ in range(3)],
                    "entry": rng.choice(["method", "func", "ensure"])}
         elif r < 0.62:
@@ -271,21 +273,17 @@ def cases(rng, tier):
                 kw = part_kw(rng)
                 parts.append(gen_part(rng, "abcd"[j], divs=ds[j], nbars=rng.randint(1, 3), qd_change=rng.random() < 0.05,
                                       empty=rng.random() < 0.12, **kw))
-            tree = list(range(npart))
+                parts[-1]["musical"] = rng.random() < 0.08
             entry = rng.choice(["score", "list", "ensure_list", "ensure_score", "group", "ensure_group"])
-            if npart >= 3 and rng.random() < 0.35:
-                # nested group
-                a = rng.randint(0, npart - 2)
-                b = rng.randint(a + 1, npart - 1)
-                tree = list(range(a)) + [list(range(a, b + 1))] + list(range(b + 1, npart))
-                entry = rng.choice(["list", "group", "ensure_group"])
+            tree = rand_tree(rng, npart) if rng.random() < 0.4 else list(range(npart))
             yield {"k": "score", "parts": parts, "tree": tree, "unique": rng.random() < 0.6,
                    "combos": [rand_opts(rng) for _ in range(2)], "entry": entry}
         elif r < 0.75:
             kw = part_kw(rng)
-            pd = gen_part(rng, "a", divs=rng.choice([1, 2, 4, 8, 16, 3, 6, 12]), p_rest=rng.choice([0.2, 0.5, 0.8]),
+            pd = gen_part(rng, "a", divs=rng.choice([1, 2, 4, 8, 16, 3, 6, 12, 5, 10, 24]), p_rest=rng.choice([0.2, 0.5, 0.8]),
                           qd_change=rng.random() < 0.1, **kw)
-            combos = [rand_opts(rng)[:6] + [rng.random() < 0.3] for _ in range(3)]
+            pd["musical"] = rng.random() < 0.1
+            combos = [rand_opts(rng)[:6] + [rng.random() < 0.45] for _ in range(3)]
             yield {"k": "rests", "part": pd, "combos": combos, "entry": rng.choice(["method", "func", "ensure"])}
         elif r < 0.8:
             npart = rng.choice([1, 2, 3])
@@ -294,8 +292,9 @@ def cases(rng, tier):
             o = rand_opts(rng)
             o[3] = False
             o[6] = False
-            yield {"k": "restlist", "parts": parts, "unique": rng.random() < 0.6, "opts": o, "collapse": False,
-                   "entry": rng.choice(["func", "ensure_list", "group", "ensure_group"])}
+            tree = rand_tree(rng, npart) if rng.random() < 0.35 else list(range(npart))
+            yield {"k": "restlist", "parts": parts, "unique": rng.random() < 0.6, "opts": o, "collapse": rng.random() < 0.3,
+                   "tree": tree, "entry": rng.choice(["func", "ensure_list", "group", "ensure_group", "func", "group", "ensure_score"])}
         elif r < 0.97:
             yield gen_inv(rng, malformed=rng.random() < 0.12)
         else:
@@ -303,7 +302,27 @@ def cases(rng, tier):
             yield {"k": "dfb", "rows": [[str(Fraction(rng.randint(-8, 64), rng.choice([1, 2, 3, 4, 6, 8, 12, 16, 5, 7]))),
                                           str(Fraction(rng.randint(0, 32), rng.choice([1, 2, 3, 4, 6, 8, 12, 16, 5, 7])))]
                                          for _ in range(k)],
-                   "raw": [rng.uniform(-2, 40) for _ in range(3)]}
+                   "raw": [rng.uniform(-2, 40) for _ in range(3)],
+                   "f32": [str(Fraction(rng.randint(-4000, 40000), rng.choice([1, 2, 3, 5, 6, 7, 12, 48, 1024, 99991])))
+                           for _ in range(4)] + [str(Fraction(2 ** 24 + rng.randint(0, 9), rng.choice([1, 2, 8, 2 ** 30])))]}
+
+
+def rand_tree(rng, npart):
+    """a nesting of the part indices 0..npart-1 (order kept): lists are PartGroups"""
+    def split(ixs, depth):
+        if len(ixs) <= 1 or depth > 2:
+            return list(ixs)
+        out, i = [], 0
+        while i < len(ixs):
+            ln = rng.randint(1, len(ixs) - i)
+            chunk = ixs[i:i + ln]
+            if rng.random() < 0.5 and (len(chunk) < len(ixs) or depth == 0):
+                out.append(split(chunk, depth + 1) if len(chunk) > 1 and rng.random() < 0.5 else list(chunk))
+            else:
+                out.extend(chunk)
+            i += ln
+        return out
+    return split(list(range(npart)), 0)
 
 
 # ====================================================================== wire
@@ -311,17 +330,12 @@ def kwargs_of(o):
     return {OPTN[i]: bool(o[i]) for i in range(7)}
 
 
-def part_tables(pd, part, need_ks, need_ts, need_metr):
-    """the values of the part's own maps at the times the tables need.
-    Returns (wire text of the part, info) or raises MapError"""
+def chain_times(pd):
+    """(onset, offset) of everything that can become a row (chains from the description)"""
     notes = pd["notes"]
     idx = {n["id"]: i for i, n in enumerate(notes)}
-    prev = {}
-    for i, n in enumerate(notes):
-        if n.get("tie"):
-            prev[n["tie"]] = i
-    # onsets / offsets of everything that can become a row (chains from the description)
-    times = set()
+    prev = set(n["tie"] for n in notes if n.get("tie"))
+    out = []
     for n in notes:
         if n["id"] in prev:
             continue
@@ -330,36 +344,21 @@ def part_tables(pd, part, need_ks, need_ts, need_metr):
             tot += cur["dur"]
             cur = notes[idx[cur["tie"]]] if cur.get("tie") else None
             guard += 1
-        times.add(n["t"])
-        times.add(n["t"] + tot)
-    times = sorted(times)
-    onsets = sorted(set(n["t"] for n in notes))
-    tt = []
-    if times:
-        bm = np.asarray(part.beat_map(list(times)), dtype=float)
-        qm = np.asarray(part.quarter_map(list(times)), dtype=float)
-        for t, b, q in zip(times, bm, qm):
-            if not (math.isfinite(b) and math.isfinite(q)):
-                raise MapError("time map not finite at %d" % t)
-            tt.append("%d %s %s %s" % (t, W.q(float(b)), W.q(float(q)), W.q(float(np.float32(b)))))
-    st = []
-    ksm = part.key_signature_map if need_ks else None
-    tsm = part.time_signature_map if need_ts else None
-    mpm = part.metrical_position_map if need_metr else None
-    for t in onsets:
-        ks = (0, 0)
-        ts = (0, 0, 0)
-        mp = (0, 0)
-        if ksm is not None:
-            a, b = ksm(t)
-            ks = (int(a), int(b))
-        if tsm is not None:
-            a, b, c = tsm(t)
-            ts = (int(a), int(b), int(c))
-        if mpm is not None:
-            a, b = mpm(t)
-            mp = (int(a), int(b))
-        st.append("%d %d %d %d %d %d %d %d" % ((t,) + ks + ts + mp))
+        out.append((n["t"], n["t"] + tot))
+    return out
+
+
+def part_wire(pd, part):
+    """the part as the model reads it: the notes and what the maps are built from (time points, quarter durations,
+    signatures, measures) - NOT the values of the maps"""
+    import partitura.score as S
+
+    notes = pd["notes"]
+    idx = {n["id"]: i for i, n in enumerate(notes)}
+    prev = {}
+    for i, n in enumerate(notes):
+        if n.get("tie"):
+            prev[n["tie"]] = i
     nt = []
     for n in notes:
         nt.append(" ".join([
@@ -367,8 +366,18 @@ def part_tables(pd, part, need_ks, need_ts, need_metr):
             W.i(n.get("oct", 0)), W.opt(W.i, n.get("voice")), W.opt(W.i, n.get("staff")),
             W.s(n.get("grace_type", "")), W.opt(W.i, idx[n["tie"]] if n.get("tie") else None),
             W.opt(W.i, prev.get(n["id"]))]))
-    qd = [int(q) for q in part._quarter_durations]
-    return " ".join([W.lst(W.i, qd), str(len(nt))] + nt + [str(len(tt))] + tt + [str(len(st))] + st)
+    npts = len(part._points)
+    first = part._points[0].t if npts else 0
+    last = part._points[-1].t if npts else 0
+    qd = ["%d %d" % (int(t), int(q)) for t, q in zip(part._quarter_times, part._quarter_durations)]
+    ts = ["%d %d %d %d" % (x.start.t, x.beats, x.beat_type, x.musical_beats) for x in part.iter_all(S.TimeSignature)]
+    ks = ["%d %d %s" % (x.start.t, x.fifths, W.s("none" if x.mode is None else x.mode)) for x in part.iter_all(S.KeySignature)]
+    ms = [(x.start.t, x.end.t) for x in part.iter_all(S.Measure)]
+    m1 = [m for m in ms if m[0] == first]
+    toks = [str(len(nt))] + nt + ["%d %d %d" % (npts, first, last), str(len(qd))] + qd + [str(len(ts))] + ts
+    toks += ["%d %d" % m1[0] if (m1 and npts) else "-", W.b(part._use_musical_beat), str(len(ks))] + ks
+    toks += [str(len(ms))] + ["%d %d" % m for m in ms]
+    return " ".join(toks)
 
 
 class MapError(Exception):
@@ -376,9 +385,22 @@ class MapError(Exception):
 
 
 def safe_part_wire(pd, part, o):
-    """wire text, or None when one of the part's own maps (C02/C10 territory) raises on this part"""
+    """wire text, or None when one of the part's own maps (C02/C10 territory) raises or is not finite on this part"""
     try:
-        return part_tables(pd, part, o[1], o[2], o[3])
+        times = sorted(set(t for ab in chain_times(pd) for t in ab))
+        if times:
+            bm = np.asarray(part.beat_map(list(times)), dtype=float)
+            qm = np.asarray(part.quarter_map(list(times)), dtype=float)
+            if not (np.isfinite(bm).all() and np.isfinite(qm).all()):
+                raise MapError("time map not finite")
+        t0 = times[0] if times else 0
+        if o[1]:
+            part.key_signature_map(t0)
+        if o[2]:
+            part.time_signature_map(t0)
+        if o[3]:
+            part.metrical_position_map(t0)
+        return part_wire(pd, part)
     except Exception:  # the map itself is broken on this part: not this property's business
         return None
 
@@ -406,6 +428,12 @@ def table_nested(na):
     return ["h:" + "/".join(names)] + [x[3] + [x[2]] for x in out]
 
 
+def is_refusal(e):
+    """the documented ValueError of ensure_notearray / ensure_rest_array for an argument of the wrong kind"""
+    m = str(e)
+    return isinstance(e, ValueError) and ("should be a" in m or "not a structured array" in m)
+
+
 def obs(ev, request, fn):
     """run fn() (the implementation), record request + canonical table / err"""
     try:
@@ -414,7 +442,7 @@ def obs(ev, request, fn):
         if isinstance(e, (KeyboardInterrupt, SystemExit)):
             raise
         ev.requests.append(request)
-        ev.impl.append("err")
+        ev.impl.append("refused" if is_refusal(e) else "err")
         return None, e
     ev.requests.append(request)
     ev.impl.append(("@approx", table_nested(na), RTOL))
@@ -449,15 +477,19 @@ def expected_rows(part, rests=False):
             if not isinstance(o, S.Note) or o.tie_prev is not None:
                 continue
         tot, cur, guard, contiguous, end = 0, o, 0, True, o.start.t
+        same_pitch = True
         while cur is not None and guard < 10000:
             if cur.start.t != end:
                 contiguous = False
+            if not rests and (cur.step, cur.alter or 0, cur.octave) != (o.step, o.alter or 0, o.octave):
+                same_pitch = False
             tot += cur.end.t - cur.start.t
             end = cur.end.t
             cur = cur.tie_next
             guard += 1
         e = {"onset_div": o.start.t, "duration_div": tot, "off": o.start.t + tot, "voice_raw": o.voice,
-             "staff": o.staff if o.staff else 0, "contiguous": contiguous, "end_last": end}
+             "staff": o.staff if o.staff else 0, "contiguous": contiguous, "end_last": end, "same_pitch": same_pitch,
+             "chain": guard}
         if rests:
             e.update(pitch=0, step="0", alter=0, octave=0, is_grace=0, grace_type="")
         else:
@@ -542,26 +574,56 @@ def check_rows(na, parts_exp, what, fails, scale=None, prefix=None, check_div=Tr
 
 
 def check_collapsed(na, part, exp, fails):
-    """collapse=True: every kept row is a rest of the part at its own onset whose three durations agree with
-    each other through the part's maps (duration_div spans [onset, onset+duration_div]), and nothing is longer than
-    what the part's rests of that voice hold"""
+    """collapse=True ("collapses consecutive rests on the same voice to a single rest of their combined duration"),
+    judged on parts whose rests do not overlap within a voice:
+    * every kept row is a rest of the part at its own onset, in the order of the uncollapsed table;
+    * the rows of a voice are exactly the maximal runs of adjacent rests (onset_div + duration_div = next onset_div):
+      total duration_div per voice preserved, no two rows of a voice adjacent any more, each row spans a run;
+    * a row's beat and quarter durations are those of its div span through the part's maps."""
     byvoice = {}
-    for e in exp.values():
-        byvoice.setdefault(e["voice"], []).append((e["onset_div"], e["off"]))
+    for rid, e in exp.items():
+        byvoice.setdefault(e["voice"], []).append((e["onset_div"], e["off"], rid))
     for spans in byvoice.values():
         spans.sort()
         if any(spans[i + 1][0] < spans[i][1] or spans[i + 1][0] == spans[i][0] for i in range(len(spans) - 1)):
             return  # overlapping rests in one voice: the same rest can be absorbed twice; nothing to state
+        if any(a >= b for a, b, _ in spans):
+            return
+    # expected runs
+    want = {}
+    for v, spans in byvoice.items():
+        cur = None
+        for a, b, rid in spans:
+            if cur is not None and cur[1] == a:
+                cur[1] = b
+            else:
+                cur = [a, b, rid]
+                want[rid] = cur
+    got = {}
     for r in na:
         rid = str(r["id"])
         if rid not in exp:
             fails.append("rests collapse: row %s is not a rest of the part" % rid)
-            continue
-        e = exp[rid]
+            return
+        got[rid] = (int(r["onset_div"]), int(r["onset_div"]) + int(r["duration_div"]), int(r["voice"]))
+    for rid, (a, b, _) in want.items():
+        if rid not in got:
+            fails.append("rests collapse adjacent: the rest %s at %d starts a run of adjacent rests (to %d) and is not in the table" % (rid, a, b))
+        elif got[rid][:2] != (a, b):
+            fails.append("rests collapse adjacent: row %s spans %d-%d, the run of adjacent rests of its voice that starts with it spans %d-%d" % (
+                rid, got[rid][0], got[rid][1], a, b))
+    for rid in got:
+        if rid not in want:
+            fails.append("rests collapse adjacent: row %s at %d follows a rest of its voice that ends there and was not merged into it" % (
+                rid, got[rid][0]))
+    for v in byvoice:
+        tot = sum(b - a for a, b, _ in byvoice[v])
+        g = sum(b - a for (a, b, vv) in got.values() if vv == v)
+        if tot != g:
+            fails.append("rests collapse total: voice %d holds %d divisions of rests, the collapsed table %d" % (v, tot, g))
+    for r in na:
+        rid = str(r["id"])
         on, dd = int(r["onset_div"]), int(r["duration_div"])
-        if on != e["onset_div"] or dd < e["duration_div"]:
-            fails.append("rests collapse: row %s at %d lasting %d, the rest is at %d lasting %d" % (rid, on, dd, e["onset_div"], e["duration_div"]))
-            continue
         b = np.asarray(part.beat_map([on, on + dd]), dtype=float)
         q = np.asarray(part.quarter_map([on, on + dd]), dtype=float)
         tol = 8 * RTOL
@@ -595,14 +657,36 @@ def build_tree(tree, parts):
     return out
 
 
-def tree_wire(tree, wires):
-    toks = ["G", str(len(tree))]
+def items_wire(tree, wires):
+    """`n item*` with item = `P part` | `G n item*`"""
+    toks = [str(len(tree))]
     for x in tree:
         if isinstance(x, list):
-            toks.append(tree_wire(x, wires))
+            toks.append("G " + items_wire(x, wires))
         else:
             toks.append("P " + wires[x])
     return " ".join(toks)
+
+
+def rest_prefixes(tree, unique, pre=""):
+    """rest_array_from_part_list prefixes on every level whenever unique_id_per_part is set: {part index: prefix}"""
+    out = {}
+    for i, x in enumerate(tree):
+        p = pre + ("P%02d_" % i if unique else "")
+        if isinstance(x, list):
+            out.update(rest_prefixes(x, unique, p))
+        else:
+            out[x] = p
+    return out
+
+
+def build_part(pd):
+    import gen_score as G
+
+    part = G.build_part(pd)
+    if pd.get("musical"):
+        part.use_musical_beat()
+    return part
 
 
 def tree_expected(tree, exps, divs, unique):
@@ -645,7 +729,7 @@ def evaluate(d):
     fails = ev.oracle
     if k == "part":
         pd = d["part"]
-        part = G.build_part(pd)
+        part = build_part(pd)
         fp0 = G.fingerprint_part(part)
         exp = expected_rows(part)
         nrows = 0
@@ -662,7 +746,7 @@ def evaluate(d):
                 fn = lambda: M.note_array_from_part(part, **kw)
             else:
                 fn = lambda: M.ensure_notearray(part, **kw)
-            na, e = obs(ev, "part %s %s" % (" ".join(W.b(x) for x in o), wire), fn)
+            na, e = obs(ev, "part %s %s %s" % (entry, " ".join(W.b(x) for x in o), wire), fn)
             if e is not None:
                 if o[6] and len(part._quarter_durations) != 1:
                     continue  # explicit refusal of several divisions
@@ -673,6 +757,7 @@ def evaluate(d):
             if list(na.dtype.names) != want_names:
                 fails.append("part columns: options %s give %s, expected %s" % (o, list(na.dtype.names), want_names))
             check_rows(na, [(part, exp)], "part", fails)
+            check_described(na, [pd], [""], "part", fails)
             if "divs_pq" in na.dtype.names and len(na) and set(int(x) for x in na["divs_pq"]) != {int(part._quarter_durations[0])}:
                 fails.append("part divs_pq: %r" % (set(int(x) for x in na["divs_pq"]),))
             if M.ensure_notearray(na) is not na:
@@ -682,15 +767,18 @@ def evaluate(d):
         ev.key = str(hash("|".join(ev.requests))) if nrows else None
     elif k == "score":
         pds = d["parts"]
-        parts = [G.build_part(pd) for pd in pds]
+        parts = [build_part(pd) for pd in pds]
         fps = [G.fingerprint_part(p) for p in parts]
         exps = [expected_rows(p) for p in parts]
         divs = [int(p._quarter_durations[0]) for p in parts]
         multi = any(len(p._quarter_durations) != 1 for p in parts)
         tree = d["tree"]
+        nested = any(isinstance(x, list) for x in tree)
         objs = build_tree(tree, parts)
         u = d["unique"]
         entry = d["entry"]
+        # Score.parts is the depth-first list of the parts: a score forgets the grouping
+        eff = list(flat(tree)) if entry in ("score", "ensure_score") else tree
         nrows = 0
         for o in d["combos"]:
             wires = [safe_part_wire(pd, p, o) for pd, p in zip(pds, parts)]
@@ -713,10 +801,12 @@ def evaluate(d):
                     fn = lambda: g.note_array(unique_id_per_part=u, **kw)
                 else:
                     fn = lambda: M.ensure_notearray(g, unique_id_per_part=u, **kw)
-            na, e = obs(ev, "score %s %s %s" % (W.b(u), " ".join(W.b(x) for x in o), tree_wire(tree, wires)), fn)
+            na, e = obs(ev, "score %s %s %s %s" % (entry, W.b(u), " ".join(W.b(x) for x in o), items_wire(tree, wires)), fn)
             if e is not None:
                 if multi:
                     continue
+                if entry == "ensure_list" and nested and is_refusal(e):
+                    continue  # documented: a list must hold Part objects only
                 fails.append("score raised: options %s unique=%s raised %s: %s" % (o, u, type(e).__name__, str(e)[:200]))
                 continue
             if multi:
@@ -725,10 +815,11 @@ def evaluate(d):
             want_names = expected_names(o, True)
             if list(na.dtype.names) != want_names:
                 fails.append("score columns: options %s give %s, expected %s" % (o, list(na.dtype.names), want_names))
-            entries, L = tree_expected(tree, exps, divs, u)
+            entries, L = tree_expected(eff, exps, divs, u)
             order = list(flat(tree))
             pe = [(parts[j], exps[j]) for j in order]
             check_rows(na, pe, "score", fails, scale=None, prefix=[entries[j] for j in order], check_div=False)
+            check_described(na, [pds[j] for j in order], [entries[j] for j in order], "score", fails)
             # lcm rescaling: one common divisions value, the least common multiple of the non-empty parts,
             # and every row keeps its musical time
             byid = {}
@@ -756,10 +847,9 @@ def evaluate(d):
         ev.key = str(hash("|".join(ev.requests))) if nrows else None
     elif k == "rests":
         pd = d["part"]
-        part = G.build_part(pd)
+        part = build_part(pd)
         fp0 = G.fingerprint_part(part)
         exp = expected_rows(part, rests=True)
-        pow2 = all(int(q) & (int(q) - 1) == 0 for q in part._quarter_durations)
         nrows = 0
         for c in d["combos"]:
             o = list(c[:6]) + [False]
@@ -778,13 +868,7 @@ def evaluate(d):
                 fn = lambda: M.rest_array_from_part(part, **kw)
             else:
                 fn = lambda: M.ensure_rest_array(part, **kw)
-            if collapse and not pow2:
-                try:
-                    check_collapsed(fn(), part, exp, fails)
-                except Exception as e:
-                    fails.append("rests raised: options %s raised %s: %s" % (c, type(e).__name__, str(e)[:200]))
-                continue
-            na, e = obs(ev, "rests %s %s %s" % (W.b(collapse), " ".join(W.b(x) for x in o), wire), fn)
+            na, e = obs(ev, "rests %s %s %s %s" % (entry, W.b(collapse), " ".join(W.b(x) for x in o), wire), fn)
             if e is not None:
                 fails.append("rests raised: options %s raised %s: %s" % (c, type(e).__name__, str(e)[:200]))
                 continue
@@ -794,6 +878,7 @@ def evaluate(d):
                 fails.append("rests columns: options %s give %s, expected %s" % (c, list(na.dtype.names), want_names))
             if not collapse:
                 check_rows(na, [(part, exp)], "rests", fails)
+                check_described(na, [pd], [""], "rests", fails)
             else:
                 check_collapsed(na, part, exp, fails)
         if G.fingerprint_part(part) != fp0:
@@ -801,35 +886,204 @@ def evaluate(d):
         ev.key = str(hash("|".join(ev.requests))) if nrows else None
     elif k == "restlist":
         pds = d["parts"]
-        parts = [G.build_part(pd) for pd in pds]
+        parts = [build_part(pd) for pd in pds]
         exps = [expected_rows(p, rests=True) for p in parts]
         o = list(d["opts"])
         u = d["unique"]
+        collapse = bool(d.get("collapse"))
+        tree = d.get("tree") or list(range(len(parts)))
+        nested = any(isinstance(x, list) for x in tree)
         wires = [safe_part_wire(pd, p, o) for pd, p in zip(pds, parts)]
         if all(w is not None for w in wires):
             kw = dict(unique_id_per_part=u, include_pitch_spelling=o[0], include_key_signature=o[1],
-                      include_time_signature=o[2], include_grace_notes=o[4], include_staff=o[5], collapse=False)
+                      include_time_signature=o[2], include_grace_notes=o[4], include_staff=o[5], collapse=collapse)
             entry = d["entry"]
+            objs = build_tree(tree, parts)
             if entry == "func":
-                fn = lambda: M.rest_array_from_part_list(parts, **kw)
+                fn = lambda: M.rest_array_from_part_list(objs, **kw)
             elif entry == "ensure_list":
-                fn = lambda: M.ensure_rest_array(parts, **kw)
+                fn = lambda: M.ensure_rest_array(objs, **kw)
+            elif entry == "ensure_score":
+                fn = lambda: M.ensure_rest_array(S.Score(objs), **kw)
             else:
                 g = S.PartGroup(group_name="top")
-                g.children = parts
+                g.children = objs
                 fn = (lambda: g.rest_array(**kw)) if entry == "group" else (lambda: M.ensure_rest_array(g, **kw))
-            na, e = obs(ev, "restlist %s 0 %s %d %s" % (W.b(u), " ".join(W.b(x) for x in o), len(parts), " ".join(wires)), fn)
+            na, e = obs(ev, "restlist %s %s %s %s %s" % (entry, W.b(u), W.b(collapse), " ".join(W.b(x) for x in o),
+                                                         items_wire(tree, wires)), fn)
             if e is not None:
-                fails.append("restlist raised: %s: %s" % (type(e).__name__, str(e)[:200]))
-            else:
-                pre = ["P%02d_" % i if u else "" for i in range(len(parts))]
-                check_rows(na, list(zip(parts, exps)), "restlist", fails, prefix=pre)
+                if not (is_refusal(e) and (entry == "ensure_score" or (entry == "ensure_list" and nested))):
+                    fails.append("restlist raised: %s: %s" % (type(e).__name__, str(e)[:200]))
+                ev.key = str(hash("|".join(ev.requests)))
+            elif not collapse:
+                pre = rest_prefixes(tree, u)
+                order = list(flat(tree))
+                check_rows(na, [(parts[j], exps[j]) for j in order], "restlist", fails, prefix=[pre[j] for j in order])
                 ev.key = str(hash("|".join(ev.requests))) if len(na) else None
+            else:
+                ev.key = str(hash("|".join(ev.requests))) if len(na) else None
+    elif k == "kinds":
+        evaluate_kinds(d, ev)
     elif k == "inv":
         evaluate_inv(d, ev)
     elif k == "dfb":
         evaluate_dfb(d, ev)
     return ev
+
+
+def evaluate_kinds(d, ev):
+    """arguments that are not scores: structured arrays come back as they are, everything else is refused"""
+    import partitura.utils.music as M
+
+    arr = np.zeros(2, dtype=[("onset_beat", "f4"), ("pitch", "i4")])
+    for which, fn in (("note", M.ensure_notearray), ("rest", M.ensure_rest_array)):
+        for what, x in (("structured", arr), ("plain", np.zeros(3)), ("other", 42)):
+            ev.requests.append("kind %s %s" % (which, what))
+            try:
+                r = fn(x)
+                ev.impl.append("same" if r is x else "different")
+            except BaseException as e:
+                if isinstance(e, (KeyboardInterrupt, SystemExit)):
+                    raise
+                ev.impl.append("refused" if is_refusal(e) else "err")
+        if fn(arr) is not arr:
+            ev.oracle.append("dispatch: ensure_%s does not return a structured array unchanged" % which)
+    ev.key = "kinds"
+
+
+DEFAULT_MB = {6: 2, 9: 3, 12: 4}
+
+
+class Described:
+    """The maps of a generated part recomputed from its DESCRIPTION with plain Fractions (no partitura map, no Lean):
+    beats/quarters by summing 1/divisions (x beat_type/4) over the unit steps, the signature in force by a scan, the
+    bar by a scan over the measures.  Only for descriptions whose reading is not in question: everything starts at 0
+    (a time and a key signature and a measure at 0), the measures tile the part."""
+
+    def __init__(self, pd):
+        self.ok = False
+        ms = sorted((m[0], m[1]) for m in (pd.get("measures") or []))
+        ts = sorted(pd["ts"])
+        ks = sorted(pd["ks"], key=lambda x: x[0])
+        if not ms or not ts or not ks or ms[0][0] != 0 or ts[0][0] != 0 or ks[0][0] != 0:
+            return
+        if any(ms[i][1] != ms[i + 1][0] for i in range(len(ms) - 1)) or any(a >= b for a, b in ms):
+            return
+        if len(set(t for t, _, _ in ts)) != len(ts) or len(set(k[0] for k in ks)) != len(ks):
+            return
+        self.ms, self.ts, self.ks = ms, ts, ks
+        self.qd = sorted([(0, pd["divs"])] + [(t, q) for t, q in pd.get("qd", [])])
+        self.musical = bool(pd.get("musical"))
+        self.end = max([ms[-1][1]] + [n["t"] + n["dur"] for n in pd["notes"]])
+        self.C = {"beat": self.cumulative("beat"), "quarter": self.cumulative("quarter")}
+        self.shift = {u: self.pickup(u) for u in ("beat", "quarter")}
+        # start of the first bar as measure_map corrects it
+        c = self.C["beat"]
+        one = c[0] + 1
+        x = None
+        for t in range(self.end):
+            if c[t] <= one <= c[t + 1] and c[t + 1] > c[t]:
+                x = t + (one - c[t]) / (c[t + 1] - c[t])
+                break
+        s0, e0 = ms[0]
+        if x is not None:
+            b0 = self.mb(ts[0][1]) if self.musical else ts[0][1]
+            if e0 - s0 < b0 * x:
+                v = e0 - b0 * x
+                fl = v.numerator // v.denominator
+                fr = v - fl
+                s0 = fl if fr < Fraction(1, 2) else fl + 1 if fr > Fraction(1, 2) else (fl if fl % 2 == 0 else fl + 1)
+        self.starts = [s0] + [m[0] for m in ms[1:]]
+        self.ok = True
+
+    @staticmethod
+    def mb(beats):
+        return DEFAULT_MB.get(beats, beats)
+
+    def in_force(self, rows, t):
+        cur = rows[0]
+        for r in rows:
+            if r[0] <= t:
+                cur = r
+        return cur
+
+    def cumulative(self, unit):
+        c, acc = {0: Fraction(0)}, Fraction(0)
+        for u in range(self.end):
+            r = Fraction(1, self.in_force(self.qd, u)[1])
+            if unit == "beat":
+                _, beats, bt = self.in_force(self.ts, u)
+                r *= Fraction(bt, 4)
+                if self.musical:
+                    r *= Fraction(self.mb(beats), beats)
+            acc += r
+            c[u + 1] = acc
+        return c
+
+    def pickup(self, unit):
+        s0, e0 = self.ms[0]
+        _, beats, bt = self.ts[0]
+        actual = self.C[unit][e0] - self.C[unit][s0]
+        normal = Fraction(4 * beats, bt) if unit == "quarter" else Fraction(self.mb(beats) if self.musical else beats)
+        return actual if actual < normal else Fraction(0)
+
+    def time(self, unit, t):
+        return self.C[unit][t] - self.shift[unit]
+
+    def metrical(self, t):
+        i = 0
+        for j, st in enumerate(self.starts):
+            if st <= t:
+                i = j
+        nxt = self.starts[i + 1] if i + 1 < len(self.starts) else self.ms[-1][1]
+        return t - self.starts[i], nxt - self.starts[i]
+
+
+def check_described(na, pds, prefixes, what, fails):
+    """the time and signature columns against the description itself (see Described)"""
+    names = na.dtype.names
+    byid = {}
+    for pd, pre in zip(pds, prefixes):
+        D = Described(pd)
+        if not D.ok:
+            continue
+        for n in pd["notes"]:
+            byid[pre + n["id"]] = D
+    for r in na:
+        D = byid.get(str(r["id"]))
+        if D is None:
+            continue
+        rid = str(r["id"])
+        dq = int(r["divs_pq"]) if "divs_pq" in names else 0
+        on = int(r["onset_div"])
+        if what == "score":
+            # rescaled to the common divisions: go back to the part's own
+            q0 = D.qd[0][1]
+            if dq <= 0 or (on * q0) % dq:
+                continue
+            on = on * q0 // dq
+        if not (0 <= on <= D.end):
+            continue
+        for c, u in (("onset_beat", "beat"), ("onset_quarter", "quarter")):
+            if not close(r[c], D.time(u, on)):
+                fails.append("%s described %s: row %s at %d has %r, the description gives %s" % (what, c, rid, on, float(r[c]), D.time(u, on)))
+        if "ks_fifths" in names:
+            k = D.in_force(D.ks, on)
+            w = (k[1], -1 if k[2] == "minor" else 1)
+            if (int(r["ks_fifths"]), int(r["ks_mode"])) != w:
+                fails.append("%s described key signature: row %s at %d has %r, the description gives %r" % (
+                    what, rid, on, (int(r["ks_fifths"]), int(r["ks_mode"])), w))
+        if "ts_beats" in names:
+            t = D.in_force(D.ts, on)
+            w = (t[1], t[2], D.mb(t[1]))
+            g = (int(r["ts_beats"]), int(r["ts_beat_type"]), int(r["ts_mus_beats"]))
+            if g != w:
+                fails.append("%s described time signature: row %s at %d has %r, the description gives %r" % (what, rid, on, g, w))
+        if "rel_onset_div" in names:
+            w = D.metrical(on)
+            g = (int(r["rel_onset_div"]), int(r["tot_measure_div"]))
+            if g != w or int(r["is_downbeat"]) != (1 if w[0] == 0 else 0):
+                fails.append("%s described metrical position: row %s at %d has %r, the description gives %r" % (what, rid, on, g, w))
 
 
 def expected_names(o, withdivs):
@@ -917,6 +1171,18 @@ def evaluate_inv(d, ev):
         trip = sorted((int(r["onset_div"]), int(r["duration_div"]), int(r["pitch"])) for r in na)
         out = "%d;%s" % (qd[0], W.f_list(lambda t: W.f_tuple(*("%d" % x for x in t)), trip))
         err = None
+        # the sounding notes read off the timeline of the new part (not through note_array): chain heads, summed
+        # durations; what add_measures / tie_notes (sanitize=True) did to them is C11's business, but a chain must be
+        # one sounding note: no gaps, one pitch
+        tl = expected_rows(part)
+        trip_tl = sorted((e["onset_div"], e["duration_div"], e["pitch"]) for e in tl.values())
+        if trip_tl != trip:
+            ev.oracle.append("inverse timeline: the new part's timeline holds %s, its note array %s" % (trip_tl[:8], trip[:8]))
+        for nid, e in tl.items():
+            if not e["contiguous"] or not e["same_pitch"]:
+                ev.oracle.append("inverse ties: the tie chain of %s is not one sounding note (gap or pitch change)" % nid)
+        ev.info["split"] = sum(1 for e in tl.values() if e["chain"] > 1)
+        ev.info["measures"] = len(part.measures)
     except BaseException as e:
         if isinstance(e, (KeyboardInterrupt, SystemExit)):
             raise
@@ -957,6 +1223,20 @@ def evaluate_inv(d, ev):
                              "(duration_div / duration_beat) say %d" % (dv, divs0))
         if d["cols"] == "div" and dv != d["divs_arg"]:
             ev.oracle.append("inverse divisions: new part has %d divisions, %d were given" % (dv, d["divs_arg"]))
+    # sanitize=True (measures, ties across barlines, tuplets) must not change what sounds: same triples as the
+    # part made from the same array without it
+    if d.get("kw", {}).get("sanitize", True):
+        try:
+            kw2 = dict(d.get("kw", {}))
+            kw2["sanitize"] = False
+            p2 = note_array_to_score(inv_array(d), divs=d.get("divs_arg"), **kw2).parts[0]
+            t2 = sorted((e["onset_div"], e["duration_div"], e["pitch"]) for e in expected_rows(p2).values())
+            q2 = [int(q) for q in p2._quarter_durations]
+            if t2 != trip or q2 != qd:
+                ev.oracle.append("inverse sanitize: with sanitize=True the part sounds %s (divisions %s), without %s (%s)" % (
+                    trip[:8], qd, t2[:8], q2))
+        except Exception as e:
+            ev.oracle.append("inverse sanitize: sanitize=False raised %s on an array that sanitize=True accepts" % type(e).__name__)
 
 
 def evaluate_dfb(d, ev):
@@ -992,6 +1272,15 @@ def evaluate_dfb(d, ev):
         f32 = float(np.float32(x))
         ev.requests.append("limden %s" % W.q(f32))
         ev.impl.append(W.f_rat(Fraction(f32).limit_denominator(256)))
+        # the model's float32 rounding against numpy's, on the binary64 value
+        ev.requests.append("f32 %s" % W.q(float(x)))
+        ev.impl.append(W.f_rat(Fraction(f32)))
+    for x in d.get("f32", []):
+        fx = Fraction(x)
+        # numpy rounds the binary64 value; use rationals that binary64 holds exactly or whose double rounding is harmless
+        dbl = float(fx)
+        ev.requests.append("f32 %s" % W.q(dbl))
+        ev.impl.append(W.f_rat(Fraction(float(np.float32(dbl)))))
     ev.key = req
 
 
@@ -1077,6 +1366,10 @@ def distribution(descs, results):
             feats["nested"] += any(isinstance(x, list) for x in d["tree"])
         if d["k"] == "inv":
             feats["inv_" + d["cols"]] += 1
+    feats["inv_with_measures"] = sum(1 for r in results if r.get("info", {}).get("measures", 0) > 0)
+    feats["inv_notes_split_by_tie_notes"] = sum(1 for r in results if r.get("info", {}).get("split", 0) > 0)
+    feats["musical_beats"] = sum(1 for d in descs for pd in ([d["part"]] if "part" in d else d.get("parts", [])) if pd.get("musical"))
+    feats["collapse"] = sum(1 for d in descs if (d["k"] == "rests" and any(c[6] for c in d["combos"])) or (d["k"] == "restlist" and d.get("collapse")))
     errs = sum(1 for r in results for x in r.get("impl", []) if x == "err")
     maperr = sum(r.get("info", {}).get("maperr", 0) for r in results)
     return {"by_kind": dict(c), "features": dict(feats), "error_observations": errs, "options_skipped_map_raises": maperr}
